@@ -107,9 +107,9 @@ func Corpus(tier string, seed int64) []Inst {
 	add(Ptr(NStruct("Emb", F("Leaf", leaf), F("X", B("int")))))
 	add(Ptr(NStruct("Empty")))
 	// depth 2 by composition over representative leaves
-	reps := []*Ty{B("int"), B("string"), B("float64"), Ptr(leaf)}
+	reps := []*Ty{B("int"), Ptr(leaf)}
 	if tier != "quick" {
-		reps = append(reps, B("bool"), B("uint8"), B("complex128"), Named("NInt", B("int")), leaf)
+		reps = append(reps, B("string"), B("float64"), B("bool"), B("uint8"), B("complex128"), Named("NInt", B("int")), leaf)
 	}
 	for _, r := range reps {
 		for _, w1 := range wrapShapes(r, true) {
@@ -125,6 +125,14 @@ func Corpus(tier string, seed int64) []Inst {
 			// as a struct field
 			add(Ptr(NStruct("W"+w1.Mangle(), F("A", B("int")), F("F", w1), F("Z", B("string")))))
 		}
+	}
+	if tier == "quick" {
+		// a few hand-picked depth-2 shapes over other leaves
+		add(Slice(Slice(B("string"))))
+		add(Map(B("string"), Slice(B("float64"))))
+		add(Ptr(NStruct("WSfloat64", F("A", B("int")), F("F", Slice(B("float64"))), F("Z", B("string")))))
+		add(Ptr(NStruct("WMstring_string", F("A", B("int")), F("F", Map(B("string"), B("string"))), F("Z", B("string")))))
+		add(Array(2, Ptr(B("string"))))
 	}
 	// containers of named basics and of struct-keyed maps
 	add(Slice(Named("NInt", B("int"))))
